@@ -28,7 +28,7 @@ def T(name):
 
 # --------------------------------------------------------------------------------------------- scenarios
 OPTIONS = {
-    "class_label": ("absent", "empty", "present"),
+    "class_label": ("absent", "empty", "present", "present-int"),  # present-int: integer class values including 0
     "comment": ("no", "yes"),
     "length_header": ("none", "equal_length+series_length", "series_length"),
     "univariate": ("yes", "no"),
@@ -52,6 +52,10 @@ def scenario_inputs(sc):
     if sc["class_label"] == "present":
         kw["class_label"] = [T("c0"), T("c1")]
         kw["class_value_list"] = list(labels)
+    elif sc["class_label"] == "present-int":
+        labels = [1, 0, 0]
+        kw["class_label"] = [0, 1]
+        kw["class_value_list"] = list(labels)
     elif sc["class_label"] == "empty":
         kw["class_label"] = []
     if sc["comment"] == "yes":
@@ -61,7 +65,7 @@ def scenario_inputs(sc):
         kw["series_length"] = 4
     elif sc["length_header"] == "series_length":
         kw["series_length"] = 4
-    return cases, (labels if sc["class_label"] == "present" else None), kw
+    return cases, (labels if sc["class_label"].startswith("present") else None), kw
 
 
 def sc_text(sc, keys=None):
@@ -136,7 +140,7 @@ def reference_data(with_labels):
 
 def expected(cases, labels):
     X = M.FrameV({"dim_0": [M.SeriesV([M.Num(t[1:-1].lower()) for t in c]) for c in cases]})
-    return X, ([l.lower() for l in labels] if labels is not None else None)
+    return X, ([str(l).lower() for l in labels] if labels is not None else None)
 
 
 def matches(got, cases, labels, sep_form):
@@ -302,6 +306,13 @@ def abstract_ts(prefix, n, length=3, labels=("c1", "c0", "c1", "c0")):
 
 
 def rule_loader(ctx, repo):
+    """Evaluated under both fixed iteration orders of sets (the order of a set is unspecified: code whose result
+    depends on it must fail under one of them)."""
+    for rev in (True, False):
+        _rule_loader(ctx, repo, rev)
+
+
+def _rule_loader(ctx, repo, set_reverse):
     mod = repo.module(DS)
     fn = repo.func(DS, "_load_dataset")
     loc = ctx.loc(mod, fn)
@@ -314,7 +325,7 @@ def rule_loader(ctx, repo):
         for rxy in (True, False):
             tag = "_load_dataset[split=%s,return_X_y=%s]" % (split, rxy)
             vfs = M.VFS(by_basename=files)
-            it = Interp(repo, M.make_externals(vfs, listing=[name]), M.to_float, M.str_hook)
+            it = Interp(repo, M.make_externals(vfs, listing=[name]), M.to_float, M.str_hook, set_reverse=set_reverse)
             try:
                 results[(split, rxy)] = it.call_function(mod, fn, [name, split, rxy])
                 results[(split, rxy, "opened")] = [p.rsplit("/", 1)[-1] for p, m in vfs.opened]
@@ -449,6 +460,38 @@ def rule_parsers(ctx, repo):
                 ctx.info("R4 info: %s names the single-frame label column %r, the .ts parser %r" % (fname, nm, ref))
 
 
+def rule_parsers_multivariate(ctx, repo):
+    """R4 (bundled multivariate problems): the relational .arff and the multivariate .ts layout of one abstract
+    2-dimensional data set parse to the same panel (dimension k of instance i in column dim_k, row i)."""
+    mod = repo.module(IO)
+    n, dims, length = 3, 2, 3
+    obs = [[[T("m%d_%d_%d" % (i, d, k)) for k in range(length)] for d in range(dims)] for i in range(n)]
+    labs = [T("c1"), T("c0"), T("c1")]
+    ts = "@problemName %s\n@timeStamps false\n@univariate false\n@classLabel true %s %s\n@data\n" % (T("pname"), T("c0"), T("c1")) \
+        + "\n".join(":".join(",".join(o) for o in inst) + ":" + l for inst, l in zip(obs, labs))
+    arff = "@relation %s\n@attribute ts relational\n" % T("pname") + "".join("@attribute att%d numeric\n" % k for k in range(length)) \
+        + "@end ts\n@attribute target {%s,%s}\n@data\n" % (T("c0"), T("c1")) \
+        + "\n".join("'" + "\\n".join(",".join(o) for o in inst) + "'," + l for inst, l in zip(obs, labs))
+    want = M.FrameV({"dim_%d" % d: [M.SeriesV([M.Num(t[1:-1]) for t in obs[i][d]]) for i in range(n)] for d in range(dims)})
+    files = {"m.ts": ts, "m.arff": arff}
+    for fname, path in ((READER, "m.ts"), (ARFF, "m.arff")):
+        fn = repo.func(IO, fname)
+        loc = ctx.loc(mod, fn)
+        c = fname + ":multivariate"
+        vfs = M.VFS(by_basename=files)
+        try:
+            r = Interp(repo, M.make_externals(vfs), M.to_float, M.str_hook).call_function(mod, fn, [path])
+        except Undecided as e:
+            ctx.undecided("R4", c, str(e), loc)
+            continue
+        except PyRaise as e:
+            ctx.violation("R4", c, "raises %s on a well-formed 2-dimensional file" % exc_text(e), loc)
+            continue
+        ok = isinstance(r, tuple) and len(r) == 2 and r[0] == want and [x for x in getattr(r[1], "data", [])] == labs
+        ctx.check(ok, "R4", c, "2-dimensional panel: dimension k of instance i in column dim_k, row i; labels alongside",
+                  "a 2-dimensional data set of %d instances is parsed as %s, expected %s with labels %s" % (n, _short(r), _short(want), labs), loc)
+
+
 # ------------------------------------------------------------------------------ no state across calls
 MEMO_DECORATORS = {"functools.lru_cache", "functools.cache", "functools.cached_property", "cachetools.cached",
                    "cachetools.func.lru_cache", "joblib.Memory.cache", "joblib.memory.Memory.cache"}
@@ -519,8 +562,9 @@ def run(ctx):
     rule_roundtrip(ctx, repo)
     rule_loader(ctx, repo)
     rule_parsers(ctx, repo)
+    rule_parsers_multivariate(ctx, repo)
     rule_stateless(ctx, repo)
     ctx.floor("R1", 13)
-    ctx.floor("R2", 36)
-    ctx.floor("R3", 10)
+    ctx.floor("R2", 48)
+    ctx.floor("R3", 20)
     ctx.floor("R4", 14)
